@@ -16,24 +16,33 @@ FRAMEWORKS = ["base", "pydantic", "sqlmodel", "attrs", "dataclasses"]
 CLS = {c.__name__: c for c in ALL_PSEUDO}
 
 
+def _ident_chars(key):
+    """the characters of a key an identifier can hold, normalised as the compiler normalises names (non-identifier characters go
+    first: a fraction or a superscript does not turn into digits), up to a fixed point"""
+    import unicodedata
+    s, prev = key, None
+    while prev != s:
+        prev = s
+        s = "".join(ch for ch in s if ("a" + ch).isidentifier())
+        s = unicodedata.normalize("NFKC", s)
+    return s
+
+
 def key_facts(key, convert_unicode=True):
     t = unidecode(key)
     fold = re.sub(r"[^0-9a-zA-Z]", "", t).lower()
+    # the label pipeline drops every non-word character first: what leads the key is its first WORD character
+    first = re.sub(r"\W", "", key)[:1]
     if not convert_unicode:
         # without transliteration "punctuation" is whatever cannot be part of an identifier (superscripts, fractions, a combining mark
         # with nothing to sit on), and case / compatibility variants fold together (NFKC + casefold, as the compiler reads names)
         import unicodedata
-        ident = "".join(ch for ch in unicodedata.normalize("NFKC", key) if ("a" + ch).isidentifier() and ch != "_")
-        while ident and not ident[0].isidentifier() and unicodedata.digit(ident[0], None) is None:
-            ident = ident[1:]
-        fold2 = unicodedata.normalize("NFKC", ident).casefold()
-        fold = fold2
-    # the label pipeline drops every non-word character first: what leads the key is its first WORD character
-    first = re.sub(r"\W", "", key)[:1]
-    if not convert_unicode:
-        # (what leads the label in that mode: the first character an identifier can hold)
-        import unicodedata
-        first = "".join(ch for ch in unicodedata.normalize("NFKC", key) if ("a" + ch).isidentifier())[:1]
+        ident = _ident_chars(key)
+        first = ident[:1]
+        body = ident.replace("_", "")
+        while body and not body[0].isidentifier() and unicodedata.digit(body[0], None) is None:
+            body = body[1:]
+        fold = body.casefold()
     lead = "alpha" if first.isalpha() else "digit" if first.isdigit() else "under" if first == "_" else "other"
     return {"fold": fold, "letter": bool(re.search(r"[a-zA-Z]", t)), "lead": lead}
 
